@@ -19,7 +19,8 @@
    failure-free twin on the real code. *)
 Require Import Calc.Base Calc.Bytecode Calc.Value Calc.FloatText Calc.Ast Calc.Resolve Calc.Compile
         Calc.VM Calc.Session Calc.MemProofs Calc.StepErr Calc.StepCode.
-Require Import Calc.ExprSem Calc.ExprVM Calc.ExprCorrect Calc.ExprTop Calc.ExprAssign Calc.ExprLen Calc.ExprSession.
+Require Import Calc.ExprSem Calc.ExprVM Calc.ExprCorrect Calc.ExprTop Calc.ExprAssign Calc.ExprLen Calc.ExprSession
+        Calc.StmtSem Calc.StmtRel Calc.StmtCorrect Calc.StmtTop Calc.StmtTwin.
 Open Scope Z_scope.
 
 Definition C08_twin_sessions_statement : Prop :=
@@ -139,3 +140,42 @@ Theorem C08_simple_sessions : forall ts mc c m,
   agree_run mc (v_globals (mc_vm mc)) ts.
 Proof. exact simple_session. Qed.
 Print Assumptions C08_simple_sessions.
+
+(* ---- the while-language with built-in calls and I/O: the property on the compiler and VM models ---- *)
+(* a failing statement — at top level, inside a loop or a block, inside a built-in — leaves a machine
+   ready for the next statement; its world is the one the semantics says: bindings and output completed
+   before the point of failure, nothing else *)
+Theorem C08_failed_statement_leaves_ready : forall Bf t mc c m n W' err,
+  bready Bf mc c m -> wstmt t = true -> CompileWf.wfb t = true ->
+  ssem Bf n (wof (mc_vm mc)) t = Some (W', Fail err) ->
+  stuck (snd (run_tree false mc t)) \/
+  (tree_agrees (snd (run_tree false mc t)) (Fail err) /\ wof (mc_vm (fst (run_tree false mc t))) = W' /\
+   exists c' m', bready Bf (fst (run_tree false mc t)) c' m').
+Proof. exact stmt_failure_leaves_ready. Qed.
+Print Assumptions C08_failed_statement_leaves_ready.
+
+(* what a statement does depends on the world only: two ready machines whose worlds agree (same global
+   data, same input left; any code and data offsets, allocation counters, earlier output o1 / o2, dead
+   stack contents) give the same value or error, write the same lines, and stay in agreement *)
+Theorem C08_statement_relocation : forall Bf t mc1 c1 m1 mc2 c2 m2 o1 o2 n W1' res,
+  bready Bf mc1 c1 m1 -> bready Bf mc2 c2 m2 ->
+  wstmt t = true -> CompileWf.wfb t = true -> nobs t = true ->
+  wrel Bf Bf o1 o2 (wof (mc_vm mc1)) (wof (mc_vm mc2)) ->
+  ssem Bf n (wof (mc_vm mc1)) t = Some (W1', res) ->
+  stuck (snd (run_tree false mc1 t)) \/ stuck (snd (run_tree false mc2 t)) \/
+  (tree_agrees (snd (run_tree false mc1 t)) res /\ tree_agrees (snd (run_tree false mc2 t)) res /\
+   wrel Bf Bf o1 o2 (wof (mc_vm (fst (run_tree false mc1 t)))) (wof (mc_vm (fst (run_tree false mc2 t)))) /\
+   (exists c m, bready Bf (fst (run_tree false mc1 t)) c m) /\
+   (exists c m, bready Bf (fst (run_tree false mc2 t)) c m)).
+Proof. exact stmt_relocation. Qed.
+Print Assumptions C08_statement_relocation.
+
+(* so a session that saw failing statements and a twin that never did — any two sessions whose worlds
+   agree — give every later statement the same value or error and the same output, for every history *)
+Theorem C08_twin_sessions_partial : forall Bf ts mc1 c1 m1 mc2 c2 m2 o1 o2,
+  bready Bf mc1 c1 m1 -> bready Bf mc2 c2 m2 ->
+  wrel Bf Bf o1 o2 (wof (mc_vm mc1)) (wof (mc_vm mc2)) ->
+  Forall (fun t => wstmt t = true /\ CompileWf.wfb t = true /\ nobs t = true) ts ->
+  twins Bf o1 o2 mc1 mc2 ts.
+Proof. exact twin_sessions. Qed.
+Print Assumptions C08_twin_sessions_partial.
